@@ -3,7 +3,8 @@ Class for managing custom score objects (e.g., "+20%").
 """
 import re
 
-SCORE_PATTERN = re.compile(r"(!*)([+\-/*])?([\d.]+)(%)?(.*)")
+# (the number may be written with an exponent: that is how Python prints very small and very large floats)
+SCORE_PATTERN = re.compile(r"(!*)([+\-/*])?([\d.]+(?:[eE][+\-]?\d+)?)(%)?(.*)")
 
 class Score:
     def __init__(self, invert, operator, value, percentage, leftovers):
